@@ -242,6 +242,8 @@ def run(ctx):
         if "panic" in after:
             viol("C13/panic/%s" % st, "Resolve panicked (%s); reference parser: %s\n%s" % (after["panic"][:120], ref[0], text[-300:]), {"text": text})
             continue
+        if worker.timed_out(ctx, after):
+            continue
         if "ok" not in after:
             # Parse error of the library
             if ref[0] == "error":
